@@ -37,7 +37,7 @@ def path(shape, base, n):
             o = b + Fraction('0.37') * d
             c = o + Fraction('0.21')
         elif shape == 'falling':
-            o = b - Fraction('0.41') * d
+            o = b - Fraction('0.41') * (d % 15)          # saw-tooth: stays positive on long horizons
             c = o - Fraction('0.13')
         elif shape == 'zigzag':
             s = 1 if d % 2 == 0 else -1
@@ -46,7 +46,7 @@ def path(shape, base, n):
         elif shape == 'gapdown':
             o = b + Fraction('0.29') * d
             c = o + Fraction('0.11')
-            if d >= n // 2:
+            if d >= 6:
                 o = o * Fraction('0.75')
                 c = c * Fraction('0.75')
                 o = Fraction(round(o * 100), 100)
@@ -242,6 +242,9 @@ def run_session(cfg, handler, universe=None, fresh=True):
     session, signals = build_session(cfg, handler, universe)
     obs.session, obs.signals = session, signals
     pid = session.portfolio_id
+    if cfg.get('idle_portfolio'):
+        # a second, idle portfolio on the same broker account (created after the strategy's)
+        session.broker.create_portfolio('zz-idle', 'idle')
     port = session.broker.portfolios[pid]
     orig = port.transact_asset
 
